@@ -30,7 +30,7 @@ Code read (line numbers of /repo at the time of writing):
 Locks: `live` = `Live._lock` / `Progress._lock`, `console` = `Console._lock`,
 `record` = `Console._record_buffer_lock`; all three are re-entrant.
 
-Not modelled (stated in the MANIFEST): sys.stdout/stderr redirection (the harness switches it off),
+Not modelled (stated in the MANIFEST): the text pending in the sys.stdout/stderr FileProxy objects (the harness has redirection on but never writes to them),
 Jupyter, the auto-refresh thread (it is one more thread whose program is `refresh`), styles (what a print
 renders to is a parameter: its lines), preemption inside one source line.
 
@@ -71,9 +71,8 @@ structure Cfg where
   stopTailUnlocked : Bool := true
 deriving Repr, DecidableEq
 
-/-- The part of the configuration the frame functions of `Model/Live` look at. -/
-def Cfg.live (c : Cfg) : Live.Cfg :=
-  { kind := if c.kind = .progress then .progress else .live, transient := c.transient, width := c.width, height := c.height }
+/-- Characters are one terminal cell wide in this model (`Model/Live` is parametric in the cell width). -/
+def cw1 : Char → Nat := fun _ => 1
 
 /-- What a buffered piece of output is. -/
 inductive Body where
@@ -167,6 +166,9 @@ inductive Act where
   /-- `self._live_render.set_renderable(self.get_renderable())` (Progress) -/
   | tableRender
   | advance (id n : Nat)
+  /-- `for stream in (sys.stdout, sys.stderr): if isinstance(stream, FileProxy): stream.flush()` in `stop()`
+  (live.py:162-165, progress.py:681-684): the proxies hold no pending text in this model, so nothing is printed -/
+  | flushProxies
 deriving Repr, DecidableEq
 
 /-- When an action of the static code is executed at all. -/
@@ -232,10 +234,10 @@ def startCode (cfg : Cfg) : List GAct :=
 
 def stopCode (cfg : Cfg) : List GAct :=
   match cfg.kind with
-  | .live => [ga (.acq .live), ga (.guardStarted true), ga (.setStarted false), ga .saveOverflow] ++ refreshCode .live
+  | .live => [ga (.acq .live), ga (.guardStarted true), ga (.setStarted false), ga .flushProxies, ga .saveOverflow] ++ refreshCode .live
       ++ ctlCode [.lf] false ++ [ga .popHook] ++ ctlCode [.showCursor] true
       ++ (if cfg.transient then ga .restorePush :: flushCode else []) ++ [ga .resetShape, ga (.rel .live)]
-  | .progress => [ga (.acq .live), ga (.guardStarted true), ga (.setStarted false)] ++ refreshCode .progress
+  | .progress => [ga (.acq .live), ga (.guardStarted true), ga (.setStarted false), ga .flushProxies] ++ refreshCode .progress
       ++ ctlCode [.lf] false ++ ctlCode [.showCursor] true ++ [ga .popHook]
       ++ (if cfg.stopTailUnlocked then
             [ga (.rel .live)] ++ (if cfg.transient then ga .restorePush :: flushCode else []) ++ [ga .resetShape]
@@ -352,11 +354,11 @@ def exec (cfg : Cfg) (t : Nat) (sh : Shared) (l : Local) : Act → Option (Share
   | .renderFrame =>
     match cfg.kind with
     | .progress =>
-      let r := progressFrame cfg.live sh.shape l.rcopy
+      let r := progressFrame cw1 cfg.width sh.shape l.rcopy
       some ({ sh with shape := some r.2 }, l.push t (.frame r.1))
     | _ =>
-      let f := liveFrame cfg.live sh.overflow l.rcopy
-      some ({ sh with shape := some (getShape f) }, l.push t (.frame f))
+      let f := liveFrame cw1 cfg.width cfg.height sh.overflow l.rcopy
+      some ({ sh with shape := some (getShape cw1 f) }, l.push t (.frame f))
   | .recAppend => some ({ sh with record := sh.record ++ l.buffer }, { l with recDone := true })
   | .write =>
     some ({ sh with file := if l.buffer.any nonEmpty then sh.file ++ [{ tid := t, op := l.nops - 1, items := l.buffer }] else sh.file },
@@ -372,14 +374,15 @@ def exec (cfg : Cfg) (t : Nat) (sh : Shared) (l : Local) : Act → Option (Share
   | .guardStarted want =>
     if sh.started = want then some (sh, l) else some (sh, { l with cont := [ga (.rel .live)] })
   | .saveOverflow => some ({ sh with overflow0 := sh.overflow, overflow := .visible }, l)
-  | .restorePush => some (sh, l.push t (.ctl (restoreCursor sh.shape) true))
+  | .restorePush => some (sh, l.push t (.ctl (restoreCursor true sh.shape) true))
   | .resetShape =>
     some ({ sh with shape := none, overflow := if cfg.kind = .live then sh.overflow0 else sh.overflow }, l)
-  | .tableRender => some ({ sh with renderable := tasksTable sh.tasks }, l)
+  | .tableRender => some ({ sh with renderable := tasksTable cw1 sh.tasks }, l)
   | .advance id n =>
     match findTask sh.tasks id with
     | some tk => some ({ sh with tasks := replaceTask sh.tasks { tk with completed := tk.completed + n } }, l)
     | none => some (sh, { l with cont := [ga (.rel .live)], raised := true })   -- KeyError leaves the `with self._lock:` block
+  | .flushProxies => some (sh, l)
 
 /-- One step of thread `t`: load the next operation, skip an action whose guard is off, or perform the
 action.  `none`: the thread is finished or blocked on a lock. -/
